@@ -28,7 +28,7 @@ struct GetUtxosResponse { payload: u64 }
 type Satoshi = u64;
 mod types {
     // [trusted:stand-in] crate::types::{GetBalanceRequest, GetUtxosRequest}: the internal request types (no network field)
-    pub(crate) struct GetBalanceRequest { pub(crate) payload: u64 }
+    pub(crate) struct GetBalanceRequest { pub(crate) address: String, pub(crate) min_confirmations: Option<u32> }
     pub(crate) struct GetUtxosRequest { pub(crate) payload: u64 }
     // module path used by extracted code (`crate::types::fee_rate_per_vbyte`)
     pub(crate) use super::fee_rate_per_vbyte;
